@@ -1108,7 +1108,10 @@ func containsItself(rv reflect.Value, onPath map[uintptr]bool) bool {
 		if rv.IsNil() {
 			return false
 		}
-		if _, isNumber := rv.Interface().(*decimal.Big); isNumber {
+		// (by type, not through rv.Interface(): that panics for a value reached through an
+		// unexported field, which made every time.Time with a zone - toString(date(2020,1,1)),
+		// '' + now() - and every struct with an unexported pointer unprintable)
+		if rv.Type() == reflect.TypeOf((*decimal.Big)(nil)) {
 			return false
 		}
 		p := rv.Pointer()
